@@ -7,6 +7,7 @@ Only the pipeline shape and the error family are structural (thin necessary cond
          their own flag; defaults keep qualify/quote/validate/expand_stars on; the same dialect
          object reaches every dialect-sensitive stage.
   C10.b  every explicit raise in the qualification modules is a SqlglotError subclass.
+  C10.c  shadowing precedence of CTE sources in Scope.branch (inner definitions win).
 Does not decide: completeness, idempotence, star order, case rules (run-time valued).
 """
 
@@ -155,7 +156,51 @@ def rule_b(ctx: Ctx) -> None:
     ctx.min_instances("raise_sites", n, 15)
 
 
-RULES = [rule_a, rule_b]
+def _merge_winner(e: ast.AST) -> list[str] | None:
+    """operands of a mapping merge in increasing precedence (the last one wins on equal keys); None = unrecognised form"""
+    def strip(x: ast.AST) -> str:
+        # `(m or {})`, `dict(m)`, `m.copy()` denote m
+        if isinstance(x, ast.BoolOp) and isinstance(x.op, ast.Or) and len(x.values) == 2 and isinstance(x.values[1], ast.Dict) and not x.values[1].keys:
+            return strip(x.values[0])
+        if isinstance(x, ast.Call) and call_name(x) == "dict" and len(x.args) == 1:
+            return strip(x.args[0])
+        if isinstance(x, ast.Call) and isinstance(x.func, ast.Attribute) and x.func.attr == "copy" and not x.args:
+            return strip(x.func.value)
+        return norm(x)
+
+    if isinstance(e, ast.Dict) and e.keys and all(k is None for k in e.keys):
+        return [strip(v) for v in e.values]
+    if isinstance(e, ast.BinOp) and isinstance(e.op, ast.BitOr):
+        l = _merge_winner(e.left) or [strip(e.left)]
+        r = _merge_winner(e.right) or [strip(e.right)]
+        return l + r
+    if isinstance(e, ast.Call) and (call_name(e) or "").split(".")[-1] == "ChainMap":
+        return [strip(a) for a in reversed(e.args)]  # ChainMap: the first mapping wins
+    return None
+
+
+def rule_c(ctx: Ctx) -> None:
+    ctx.rule("C10.c", "shadowing: in Scope.branch the CTE sources handed to the inner scope take precedence over the ones inherited from the enclosing scope "
+                      "(a nested WITH that re-defines an outer CTE name must resolve to the inner definition)")
+    f = ctx.repo.func("sqlglot.optimizer.scope", "Scope.branch")
+    calls = [c for c in walk_no_nested(f.node) if isinstance(c, ast.Call) and call_name(c) == "Scope"]
+    ctx.require(len(calls) == 1, "anchor vanished: Scope.branch no longer builds exactly one Scope(...)")
+    arg = kwarg(calls[0], "cte_sources")
+    ctx.require(arg is not None, "anchor vanished: Scope.branch no longer passes cte_sources= to the inner Scope")
+    order = _merge_winner(arg)
+    inst = f"{f.key}|cte_sources={norm(arg, 80)}"
+    if order is None or "self.cte_sources" not in order or "cte_sources" not in order:
+        ctx.ok(inst, {"merge": norm(arg, 80), "decided": False, "note": "merge form not recognised by the rule; precedence not decided"})
+        ctx.notes.append("C10.c: merge form in Scope.branch not recognised; precedence not decided")
+    elif order.index("cte_sources") > order.index("self.cte_sources"):
+        ctx.ok(inst, {"merge": norm(arg, 80), "precedence_low_to_high": order})
+    else:
+        ctx.fail(f.module, arg, f.key, arg,
+                 f"the merge gives the enclosing scope's CTEs precedence over the inner ones (low to high: {order}): a nested WITH that re-defines an outer CTE name "
+                 f"resolves to the outer definition, so stars expand to the wrong columns")
+
+
+RULES = [rule_a, rule_b, rule_c]
 EXPLANATION = (
     "Typestate of a straight-line pipeline: the order of the six stage calls, the single threaded variable, own-flag "
     "guards, defaults and dialect/schema threading in qualify() are read from its AST; the error family of every "
